@@ -68,6 +68,7 @@ package app
 //@ requires nonnil(target)
 //@ modifies disk()
 //@ ensures writes() == old(writes()) + 1 && lastpath() == target.Path() && same(lastdata(), contents)
+//@ ensures implies(nonnil(result), coded(result))
 
 // Reading never writes (the functions below only use os.ReadFile / os.MkdirAll / path manipulation; their bodies are
 // outside the verifier's subset, so these contracts are trusted assumptions).
@@ -118,13 +119,22 @@ package app
 // and the safeguard accepted the edited text; it never touches the disk (frame: no modifies clause). The steps are
 // opaque functions here (A-PUREFN); the first failing step ends the loop before MakeResult is reached.
 // error.go — an application error carries the code it was created with; the codes are the (non-zero) exit statuses.
+// coded(e): the error yields a non-zero exit status (an AppError with a code >= 1, or parser errors, whose code is the
+// constant LOGICAL_ERROR).
+//@ spec coded(e Error) bool = (typeis(e, AppError) && e.(AppError).code >= 1) || typeis(e, parserErrors)
+//@ func NewParserErrors
+//@ ensures typeis(result, parserErrors)
+//@ func (parserErrors).Code
+//@ ensures result >= 1
+//@ func (AppError).Code
+//@ ensures result == e.code
 //@ func NewErrorWithCode
 //@ ensures typeis(result, AppError) && result.(AppError).code == code
 //@ func NewError
 //@ ensures typeis(result, AppError) && result.(AppError).code == 1
 
 //@ func ApplyReconciler
-//@ ensures implies(nonnil(result1), typeis(result1, AppError) && result1.(AppError).code >= 1)
+//@ ensures implies(nonnil(result1), coded(result1))
 //@ requires forall(i, 0, len(reconcile), reconcile[i] != nil)
 //@ ensures isnil(result1) == (result0 != nil)
 //@ ensures implies(result0 != nil, txt.valid(result0.AllSerialised))
@@ -138,6 +148,10 @@ package app
 //@ requires ctx != nil && nonnil(ctx.parser) && forall(i, 0, len(reconcile), reconcile[i] != nil)
 //@ noframe
 //@ before WriteToFile assert isnil(err) && errs == nil && isnil(aErr) && result != nil && txt.valid(result.AllSerialised) && writes() == old(writes())
+// once the target has been retrieved, every failure (syntax errors in the target, no eligible record, a failing step,
+// the safeguard, the write) carries a non-zero exit status
+//@ before Parse bind retrieved = true
+//@ ensures implies(nonnil(result1) && retrieved, coded(result1))
 //@ ensures isnil(result1) == (result0 != nil)
 //@ ensures writes() == old(writes()) || (writes() == old(writes()) + 1 && txt.valid(lastdata()))
 //@ ensures implies(result0 != nil, writes() == old(writes()) + 1 && same(lastdata(), result0.AllSerialised))
